@@ -1006,5 +1006,62 @@ func runC20(res *hx.Result, rng *hx.Rng, tier string, outdir string) {
 		}
 		one(t1, t2, kind)
 	}
+	if tier == "thorough" {
+		exhaustiveC20(one)
+		res.Exhaustive = true
+		res.Notes = append(res.Notes, "exhaustive part: all 15x15 pairs of scalar types (4 values each), and every compatible scalar pair under each container "+
+			"(slice, map key, map element, struct field) at depth 1 (2 values) and under every container-of-container at depth 2 (1 value)")
+	}
 	cf.Flush()
+}
+
+func allScalars() []*gt {
+	r := []*gt{{k: gBool}, {k: gString}, {k: gF32}, {k: gF64}}
+	for i := range ikinds {
+		r = append(r, &gt{k: gInt, ik: i})
+	}
+	return r
+}
+
+// wrap1 puts the pair (a, b) under container c (0 slice, 1 map key, 2 map element, 3 struct field)
+func wrap1(c int, a, b *gt) (*gt, *gt) {
+	switch c {
+	case 0:
+		return &gt{k: gSlice, elem: a}, &gt{k: gSlice, elem: b}
+	case 1:
+		return &gt{k: gMap, key: a, elem: &gt{k: gString}}, &gt{k: gMap, key: b, elem: &gt{k: gString}}
+	case 2:
+		return &gt{k: gMap, key: &gt{k: gInt, ik: 0}, elem: a}, &gt{k: gMap, key: &gt{k: gInt, ik: 1}, elem: b}
+	default:
+		return &gt{k: gStruct, fields: []gfield{{"Xa", a}, {"Y", &gt{k: gBool}}}}, &gt{k: gStruct, fields: []gfield{{"Y", &gt{k: gBool}}, {"XA", b}}}
+	}
+}
+
+func exhaustiveC20(one func(t1, t2 *gt, kind string)) {
+	sc := allScalars()
+	for _, a := range sc {
+		for _, b := range sc {
+			for i := 0; i < 4; i++ {
+				one(a.clone(), b.clone(), "exhaustive-scalar")
+			}
+			if !compatGo(a, b) {
+				continue
+			}
+			for c := 0; c < 4; c++ {
+				t1, t2 := wrap1(c, a.clone(), b.clone())
+				if c == 1 && a.k >= gSlice {
+					continue
+				}
+				one(t1, t2, "exhaustive-depth1")
+				one(t1.clone(), t2.clone(), "exhaustive-depth1")
+				for d := 0; d < 4; d++ {
+					if d == 1 {
+						continue // containers are not map keys
+					}
+					u1, u2 := wrap1(d, t1.clone(), t2.clone())
+					one(u1, u2, "exhaustive-depth2")
+				}
+			}
+		}
+	}
 }
